@@ -144,3 +144,29 @@ def export_scripts(cfgname, num, depth, seed, out_path, fam):
     if n == 0:
         raise vlib.ToolError("no behaviours exported from %s: %s" % (cfgname, r.stdout[-1500:]))
     return n
+
+
+# ------------------------------------------------------------------------------------------------
+# unbounded strengthening for C10: the quota arithmetic as an inductive invariant, discharged by Apalache
+
+def apalache_quota():
+    d = os.path.join(vlib.SPEC, "apalache")
+    runs = [("base", ["--init=Init", "--inv=IndInv", "--length=0"]),
+            ("step", ["--init=IndInit", "--inv=IndInv", "--length=1"]),
+            ("consequence", ["--init=IndInit", "--inv=Safe", "--length=0"])]
+    out = {"tool": "apalache-mc 0.58", "module": "spec/apalache/QuotaInd.tla", "obligations": []}
+    t0 = time.time()
+    for name, args in runs:
+        r = subprocess.run(["timeout", "600", "apalache-mc", "check", "--cinit=ConstInit"] + args + ["QuotaInd.tla"], cwd=d,
+                           stdout=subprocess.PIPE, stderr=subprocess.STDOUT, text=True)
+        ok = "EXITCODE: OK" in r.stdout
+        out["obligations"].append({"name": name, "args": " ".join(args), "ok": ok})
+        if not ok:
+            import shutil
+            shutil.rmtree(os.path.join(d, "_apalache-out"), ignore_errors=True)
+            raise vlib.ToolError("Apalache did not discharge %s of QuotaInd: %s" % (name, r.stdout[-800:]))
+    import shutil
+    shutil.rmtree(os.path.join(d, "_apalache-out"), ignore_errors=True)
+    out["wall_s"] = round(time.time() - t0, 1)
+    out["statement"] = "for every Receive Maximum R in 1..65535: quota + outstanding = R is inductive under accept/refuse/complete; hence outstanding <= R, refusal iff R outstanding, all slots come back"
+    return out
